@@ -83,7 +83,10 @@ fn validate_record<const N: usize>() {
     let data = &buf[..len];
     let r = refdec(data, |off| crc_oracle(data, off, crc_free));
     // shape bound, assumed BEFORE parsing so that the walk loops are bounded by it
-    kani::assume(!r.overflow && r.verdict == Verdict::Accept && r.excess == 0 && r.n <= 2);
+    // (no FINGERPRINT in this harness: the reference decoder runs BEFORE the parser here, so its CRC
+    // oracle could not see the value the recorder stub later hands to the parser; a FINGERPRINT
+    // plays no part in integrity validation)
+    kani::assume(!r.overflow && r.verdict == Verdict::Accept && r.excess == 0 && r.n <= 2 && r.fp_off.is_none());
     let msg = match Message::from_bytes(data) {
         Ok(m) => m,
         Err(_) => {
@@ -226,3 +229,100 @@ fn c04_long_term_key() {
         assert!(res.is_ok() == MAC.ok, "C04:validation-verdict-is-not-the-mac-verdict");
     }
 }
+
+/// quick-tier validation harnesses with a FIXED attribute skeleton (types and lengths are literals,
+/// every other byte -- class/method bits, id, ordinary value, HMAC value -- symbolic) and a symbolic
+/// short-term password: which attribute reaches the MAC, HMAC input = message up to it with the
+/// length field ending at it, expected = its value, key = password, verdict = MAC verdict.
+/// $pre = value bytes of a leading ordinary attribute (0 = none), $ty/$len = the integrity attribute.
+macro_rules! vfix {
+    ($name:ident, $pre:expr, $ty:expr, $len:expr) => {
+        #[kani::proof]
+        #[kani::unwind(5)]
+        #[kani::stub(stun_types::attribute::Fingerprint::compute, crc_stub)]
+        #[kani::stub(stun_types::attribute::MessageIntegrity::verify, verify_sha1_stub)]
+        #[kani::stub(stun_types::attribute::MessageIntegritySha256::verify, verify_sha256_stub)]
+        fn $name() {
+            const PRE: usize = if $pre == 0 { 0 } else { 4 + (($pre + 3) & !3) };
+            const OFF: usize = 20 + PRE;
+            const N: usize = OFF + 4 + $len;
+            let mut buf: [u8; N] = kani::any();
+            let probe: usize = kani::any();
+            let kprobe: usize = kani::any();
+            let eprobe: usize = kani::any();
+            let pw: [u8; 3] = kani::any();
+            let pn: usize = kani::any();
+            kani::assume(pn <= 3 && pw[0] < 0x80 && pw[1] < 0x80 && pw[2] < 0x80);
+            kani::assume(buf[0] & 0xc0 == 0);
+            buf[2] = ((N - 20) >> 8) as u8;
+            buf[3] = (N - 20) as u8;
+            buf[4] = 0x21;
+            buf[5] = 0x12;
+            buf[6] = 0xa4;
+            buf[7] = 0x42;
+            if PRE > 0 {
+                buf[20] = 0x7f;
+                buf[21] = 0x01;
+                buf[22] = 0;
+                buf[23] = $pre as u8;
+            }
+            buf[OFF] = ($ty >> 8) as u8;
+            buf[OFF + 1] = $ty as u8;
+            buf[OFF + 2] = 0;
+            buf[OFF + 3] = $len as u8;
+            if NATIVE {
+                native_realize(&mut buf, N, &pw[..pn], realize_mask());
+            }
+            unsafe {
+                MAC.probe = probe;
+                MAC.key_probe = kprobe;
+                MAC.exp_probe = eprobe;
+            }
+            let msg = match Message::from_bytes(&buf) {
+                Ok(m) => m,
+                Err(_) => {
+                    assert!(false, "C04:well-formed-message-refused");
+                    return;
+                }
+            };
+            let creds = short_creds(&pw, pn);
+            let res = msg.validate_integrity(&creds);
+            if NATIVE {
+                return;
+            }
+            let (calls, ok, is256, dlen, b2, b3, pb, klen, kb, elen, eb) = unsafe {
+                (MAC.calls, MAC.ok, MAC.sha256, MAC.len, MAC.b2, MAC.b3, MAC.probe_byte, MAC.key_len, MAC.key_probe_byte, MAC.exp_len, MAC.exp_probe_byte)
+            };
+            assert!(calls == 1, "C04:integrity-attribute-present-but-mac-not-consulted");
+            assert!(is256 == ($ty == 0x001C), "C04:mac-consulted-for-an-attribute-that-is-not-exposed");
+            assert!(dlen == OFF, "C04:hmac-input-is-not-the-message-up-to-the-integrity-attribute");
+            let l = OFF + 4 + $len - 20;
+            assert!(b2 == (l >> 8) as u8 && b3 == l as u8, "C04:hmac-input-length-field-does-not-end-at-the-integrity-attribute");
+            if probe < OFF && probe != 2 && probe != 3 {
+                assert!(pb == buf[probe], "C04:hmac-input-bytes-modified");
+            }
+            assert!(elen == $len, "C04:expected-hmac-is-not-the-attribute-value");
+            if eprobe < $len {
+                assert!(eb == buf[OFF + 4 + eprobe], "C04:expected-hmac-is-not-the-attribute-value");
+            }
+            assert!(klen == pn, "C04:short-term-key-is-not-the-password");
+            if kprobe < pn {
+                assert!(kb == pw[kprobe], "C04:short-term-key-is-not-the-password");
+            }
+            match &res {
+                Ok(a) => {
+                    assert!(ok, "C04:validated-although-the-mac-refused");
+                    assert!((*a == IntegrityAlgorithm::Sha256) == is256, "C04:reported-algorithm-is-not-the-one-checked");
+                }
+                Err(_) => assert!(!ok, "C04:validation-failed-although-the-mac-accepted"),
+            }
+            kani::cover!(res.is_ok());
+            kani::cover!(res.is_err());
+        }
+    };
+}
+vfix!(c04_validate_fixed_sha256_16, 0, 0x001Cu16, 16);
+vfix!(c04_validate_fixed_sha256_32, 0, 0x001Cu16, 32);
+vfix!(c04_validate_fixed_x3_sha256_20, 3, 0x001Cu16, 20);
+vfix!(c04_validate_fixed_mi, 0, 0x0008u16, 20);
+vfix!(c04_validate_fixed_x5_mi, 5, 0x0008u16, 20);
